@@ -146,8 +146,10 @@ CLAIMS = {
    text="Proof: the five composition functions (1-sum, both 2-sum variants, delta-, Y- and 3-sum) are Lean functions with theorems for every "
         "shape: result dimensions and entry ranges; acceptance iff the shape predicate holds (and the returned matrix identified); "
         "decompose-then-compose round trips for 2-, delta-, Y- and 3-sums; a 1-sum is TU iff all blocks are; the components of a TU 2-sum are TU "
-        "and the 2-sum of TU components is TU (over GF(3), and over GF(2) for 0/1 operands), in Mathlib's sense. Not proved: TU of delta-, Y- and "
-        "3-sums (in either direction) - tested on the explored domain only. Tie: CMRonesumCompose/CMRtwosumCompose/CMRdeltasumCompose/"
+        "and the 2-sum of TU components is TU (over GF(3), and over GF(2) for 0/1 operands), in Mathlib's sense; the delta-sum and the Y-sum of "
+        "TU operands are TU (C12Delta.lean: determinant identity for rank-one coupled blocks, no pivoting; for the model's composeDelta / "
+        "composeY with special lines in arbitrary positions). Not proved: TU of Truemper's 3-sum (compose3) and the converse directions for "
+        "delta/Y/3-sums - tested on the explored domain only. Tie: CMRonesumCompose/CMRtwosumCompose/CMRdeltasumCompose/"
         "CMRysumCompose/CMRthreesumCompose compared exactly with the model on valid and invalid operand/special-index choices; the library's own "
         "decomposition sequence (representatives, epsilon, connecting element, DecomposeFirst/Second) run on seeded separations, its components "
         "validated (shape conditions, TU by the oracle) and recomposed by library and model.",
